@@ -21,6 +21,9 @@ Mutation kinds (``KINDS``):
               redeclare_output shadow_scope (consistent: definition and all references, often with a
               sharding annotation on the shadowed operand) autoname (values/nodes consistently renamed to the
               library's own val_<n> / node_<op>_<n> scheme) unname (a definition loses its name)
+              empty_run (a whole run of one repeated name field emptied: all / trailing / leading / all but one,
+              the list first lengthened to 2-4 entries half of the time; every repeated string field and every
+              repeated message field with a name, by reflection)
   structure   shuffle_nodes cyclic_nodes self_loop deep_nesting recursive_function dup_function
               dup_attr dup_keyed copy_across outer_output drop_producer late_reject
   types/enums missing_type unknown_enum attr_type_mismatch unsupported
@@ -287,6 +290,97 @@ def m_empty_name(root, rng):
         return "an input/output name emptied"
     setattr(s[1], s[0], "")
     return f"{s[1].DESCRIPTOR.name}.{s[0]} emptied"
+
+
+_NAME_SUBFIELDS = ("name", "tensor_name", "key", "domain", "configuration_id")
+_RUN_MODES = ("all", "all", "all", "trailing", "trailing", "leading", "all_but_one")
+
+
+def _name_list_sites(root) -> dict[tuple[str, str], list[tuple]]:
+    """Every repeated field that carries names, found by reflection and grouped by (message type, field):
+    repeated string fields (NodeProto.input/output, FunctionProto.input/output/attribute, device lists ...) and
+    repeated message fields whose elements have a string ``name`` / ``tensor_name`` / ``key`` / ``domain``
+    (graph inputs/outputs/initializers/value infos, nodes, attributes, functions, opset imports, metadata ...)."""
+    groups: dict[tuple[str, str], list[tuple]] = {}
+    for m in walk(root):
+        for fd in m.DESCRIPTOR.fields:
+            if not _rep(fd):
+                continue
+            sub = None
+            if fd.message_type is not None:
+                sub = next((s for s in _NAME_SUBFIELDS if s in fd.message_type.fields_by_name
+                            and fd.message_type.fields_by_name[s].type == _FD.TYPE_STRING
+                            and not _rep(fd.message_type.fields_by_name[s])), None)
+                if sub is None:
+                    continue
+            elif fd.type != _FD.TYPE_STRING:
+                continue
+            lst = getattr(m, fd.name)
+            if len(lst):
+                groups.setdefault((m.DESCRIPTOR.name, fd.name), []).append((m, fd, sub))
+    return groups
+
+
+def m_empty_run(root, rng):
+    """Degenerate repeated name fields: a whole RUN of one list of names is emptied - all of them, a trailing or
+    leading run, or all but one - after the list was (half of the time) lengthened to 2-4 entries.  A node none of
+    whose outputs / inputs is named, a graph all of whose inputs / outputs / initializers / value infos are
+    unnamed, a function with only empty parameter names, attributes all named ''."""
+    groups = _name_list_sites(root)
+    if not groups:
+        return None
+    r = rng.random()
+    operands = [k for k in (("NodeProto", "input"), ("NodeProto", "output")) if k in groups]
+    if r < 0.4 and operands:  # operand lists of nodes: where ONNX itself allows '' (optional operands) ...
+        m, fd, sub = rng.choice(groups[rng.choice(operands)])
+    elif r < 0.7:  # ... every kind of list gets its share ...
+        m, fd, sub = rng.choice(groups[rng.choice(sorted(groups))])
+    else:  # ... and so does every single list
+        m, fd, sub = rng.choice([s for k in sorted(groups) for s in groups[k]])
+    lst = getattr(m, fd.name)
+    padded = 0
+    if len(lst) < 4 and (len(lst) < 2 or rng.random() < 0.5) and rng.random() < 0.8:
+        for _ in range(rng.randint(1, 4 - len(lst))):
+            if sub is None:
+                lst.append("")
+            else:
+                src = lst[rng.randrange(len(lst))]
+                if src.ByteSize() > 4000:
+                    lst.add()
+                else:
+                    lst.add().CopyFrom(src)
+            padded += 1
+    n = len(lst)
+    mode = rng.choice(_RUN_MODES)
+    if mode == "all" or n == 1:
+        idx = list(range(n))
+        mode = "all"
+    elif mode == "trailing":
+        idx = list(range(rng.randint(1, n - 1), n))
+    elif mode == "leading":
+        idx = list(range(0, rng.randint(1, n - 1)))
+    else:
+        keep = rng.randrange(n)
+        idx = [i for i in range(n) if i != keep]
+    for i in idx:
+        if sub is None:
+            lst[i] = ""
+        else:
+            setattr(lst[i], sub, "")
+    return (f"{m.DESCRIPTOR.name}.{fd.name}{'' if sub is None else '[].' + sub}: {len(idx)} of {n} entries emptied ({mode})"
+            + (f" after {padded} entries were appended" if padded else ""))
+
+
+def all_empty_lists(root) -> list[str]:
+    """'Type.field' of every repeated name field of the message tree that has >= 2 entries, all of them empty."""
+    out = set()
+    for key, sites in _name_list_sites(root).items():
+        for m, fd, sub in sites:
+            lst = getattr(m, fd.name)
+            if len(lst) >= 2 and not any((e if sub is None else getattr(e, sub)) for e in lst):
+                out.add(f"{key[0]}.{key[1]}")
+                break
+    return sorted(out)
 
 
 def m_io_alias(root, rng):
@@ -1707,7 +1801,7 @@ def m_byte_append_field(root, rng):
 
 MUTATIONS: dict[str, Callable] = {
     "dangling_input": m_dangling_input, "dangling_output": m_dangling_output, "dup_name": m_dup_name,
-    "empty_name": m_empty_name, "io_alias": m_io_alias, "init_like": m_init_like, "shadow_outer": m_shadow_outer,
+    "empty_name": m_empty_name, "empty_run": m_empty_run, "io_alias": m_io_alias, "init_like": m_init_like, "shadow_outer": m_shadow_outer,
     "redeclare_output": m_redeclare_output, "shadow_scope": m_shadow_scope, "autoname": m_autoname, "unname": m_unname,
     "shuffle_nodes": m_shuffle_nodes, "cyclic_nodes": m_cyclic_nodes, "self_loop": m_self_loop,
     "deep_nesting": m_deep_nesting, "recursive_function": m_recursive_function, "dup_function": m_dup_function,
@@ -1758,6 +1852,7 @@ def default_weights(root: Message) -> dict[str, float]:
         w[k] = 0.8
     w["deep_nesting"] = 0.8
     w["unname"] = 2.0
+    w["empty_run"] = 2.5
     w["ir_version"] = 0.4
     return w
 
